@@ -79,6 +79,11 @@ def build_family(tier):
     fam += [('real', t) for t in mixed]
     fam += [('logic', t) for t in X.logic_trees(ints[1:200:5])]
     fam += substituted_trees()
+    il, rl = X.int_leaves(), X.real_leaves()
+    fam += [('int-pyop', t) for t in X.pyop_trees([il[0], il[1], il[3]])]
+    fam += [('int-powtower', t) for t in X.power_towers(il)]
+    fam += [('real-powtower', t) for t in X.power_towers([rl[0], il[1], il[2]])]
+    fam += [('real-pyop', t) for t in X.pyop_trees([rl[0], rl[1], rl[3]])]
     # trees produced by the real simplifier
     seen = set()
     for kind, t in [('int', t) for t in ints[:1500]] + [('real', t) for t in reals[:300]]:
